@@ -257,6 +257,13 @@ func runC11(r *core.Run) {
 		}
 		c11Structured(r, e.name, core.MustCfg("core"), core.MustCfg("x:"+e.name))
 	}
+	// the same under the other renderer switches (hard wraps, XHTML, unsafe): conservative whatever the renderer options
+	for _, e := range c11Exts {
+		c11Structured(r, e.name, core.MustCfg("core+unsafe+xhtml+hardwraps"), core.MustCfg("x:"+e.name+"+unsafe+xhtml+hardwraps"))
+	}
+	for _, cj := range []string{"cjk-simple", "cjk-css3", "cjk"} {
+		c11Structured(r, cj, core.MustCfg("core+hardwraps"), core.MustCfg("x:"+cj+"+hardwraps"))
+	}
 	for _, cj := range []string{"cjk-simple", "cjk-css3", "cjk-esc", "cjk"} {
 		c11Structured(r, cj, core.MustCfg("core"), core.MustCfg("x:"+cj))
 		if cj == "cjk-simple" || cj == "cjk-css3" {
